@@ -331,6 +331,14 @@ impl UnsettledMessage {
     ) -> Result<(), Option<DeliveryState>> {
         self.sender.send(state)
     }
+
+    /// Closes the completion channel of this delivery without settling it: whoever waits for
+    /// the outcome stops waiting (and reports why the session stopped), while the delivery
+    /// stays in the unsettled map and can still be resumed on another session.
+    pub fn abandon_waiter(&mut self) {
+        let (closed, _) = oneshot::channel();
+        self.sender = closed;
+    }
 }
 
 impl AsDeliveryState for UnsettledMessage {
